@@ -196,7 +196,38 @@ def configurations(F, R):
     R.ob('WHO-MAY-CALL', 'WHO-MAY-CALL::default-config-shortcuts::summary', not bad, 'crate iceoryx2 calls only the *_cfg forms of list / does_exist / remove (%d shortcut uses)' % len(bad), 'iceoryx2/src')
 
 
+def looked_up_hash_is_the_stored_hash(F, R):
+    """Domain isolation of Service::list / details / does_exist: a static service config found under the file name built from <prefix><hash>
+    is accepted only if the hash STORED in it equals the looked-up hash (a config of the domain with prefix `ab` is found under prefix `a`
+    as hash `b<hash>`).  The single reader read_static_service_config returns Some(config) only under that equality."""
+    f = F.fn_opt('iceoryx2::service::read_static_service_config')
+    if f is None:
+        R.missing('iceoryx2::service::read_static_service_config')
+        return
+    somes = [o for o in f.ok_exit_sites()]
+    n = 0
+    for o in somes:
+        conds = lib.path_conds(f, o, F)
+        if not any('deserialize(' in c for c in conds):
+            continue    # the Ok(None) exit (storage does not exist)
+        n += 1
+        ok = any(re.search(r'^!\w*(::)?ne\(service_hash, StaticConfig::service_hash\(', c) or re.search(r'^\w*(::)?eq\(service_hash, StaticConfig::service_hash\(', c) or re.search(r'^\(service_hash == StaticConfig::service_hash\(', c) or re.search(r'^\(StaticConfig::service_hash\(.* == service_hash\)$', c) for c in conds)
+        if not ok:
+            # the comparison may equally live in the common caller of every lookup (__internal_details)
+            g = F.fn_opt('iceoryx2::service::__internal_details')
+            if g is not None:
+                for b_ in range(len(g.blocks)):
+                    t_ = g.blocks[b_]['t']
+                    if t_[0] == 'switch' and re.search(r'service_hash', sym_nstr(sym(g, t_[1]))) and re.search(r'\bne\(|\beq\(|==|!=', sym_nstr(sym(g, t_[1]))) and g.calls(r'read_static_service_config$') and all(g.dominates(g.term_site(b_), e_) for e_ in g.ok_exit_sites() if any('read_static_service_config' in c_ for c_ in lib.path_conds(g, e_, F))):
+                        ok = True
+        R.ob('ONLY-UNDER', 'ONLY-UNDER::%s::config-returned-only-if-stored-hash-matches' % fnkey(f), ok, 'Ok(Some(config)) is returned under %s' % ([c[:70] for c in conds if 'hash' in c][:2] or 'no hash comparison'), o.where, f)
+    R.floor('config-returning exits of read_static_service_config', n, 1)
+    callers = set(core.strip_generics(s_.fn.id) for s_ in F.callers_of(r'service::__internal_details$'))
+    R.ob('WHO-MAY-CALL', 'WHO-MAY-CALL::iceoryx2::service::__internal_details::reads-through-read_static_service_config', bool(F.fn_opt('iceoryx2::service::__internal_details')) and bool(F.fn_opt('iceoryx2::service::__internal_details').calls(r'read_static_service_config$')), 'Service::list/details/does_exist go through __internal_details -> read_static_service_config (callers of __internal_details: %s)' % sorted(x.rsplit('::', 1)[-1] for x in callers), f.file, f)
+
+
 def check(F, R, tier):
+    looked_up_hash_is_the_stored_hash(F, R)
     revalidation(F, R)
     predicates(F, R)
     paths(F, R)
